@@ -47,6 +47,11 @@ def workload(tier, rng):
         if k <= 21 and rng.random() < 0.4:
             execs.append(gen.encode_exec(P(3, k, r, N1=n1, seed=seed, length=gen.need_len(3, k, 0)), slots="buf",
                                          rebuild=(rng.randrange(k), list(range(k, k + r)))))
+    # high code rates: long, uneven equations (several columns may draw the same row)
+    for _ in range(60 if q else 1200):
+        k = rng.randint(20, 80); r = rng.randint(4, 12); n1 = rng.randint(3, min(10, r))
+        p = P(3, k, r, N1=n1, seed=rng.choice([1, 2, 3, rng.randint(1, 2 ** 31 - 2)]), length=gen.need_len(3, k, 0))
+        execs.append(gen.encode_exec(p, slots=rng.choice(["buf", "null"])))
     # replicated identity payloads: the generator row must show up in every block of k positions, so the
     # whole symbol (all byte-kernel branches: 64/32-bit words, 16-byte unrolling, tails) carries non-zero data
     for _ in range(120 if q else 1500):
